@@ -21,8 +21,8 @@ import RModel.Lemmas.Scan
   * `readonly_full`: every dry run of every command — plan --dry-run, search, rename --dry-run, replace --dry-run —
     leaves the tree *identical* and writes only the transient probe, when auto-init adds nothing in that run;
     `C14_full_holds`: with the one-time ignore-file addition, only the ignore file differs and every write is permitted.
-  * `plan_writes_permitted`: a non-dry `plan` writes only `.renamify/`, the transient lock, the plan file and the
-    probe.  `autoinit_once`: the ignore-file program runs only in the run that has `autoInit`.
+  * `plan_writes_permitted`: a non-dry `plan` writes only `.renamify/`, the transient lock (and its temp file), the plan
+    file and the probe.  `autoinit_once`: the ignore-file program runs only in the run that has `autoInit`.
   * `rename_dryrun_writes_nothing` / `before_fix_rename_dryrun_creates_renamify`: the defect repaired by 055e350, as
     a fact about the model instantiated with the old gate table.
 -/
@@ -127,13 +127,16 @@ theorem search_is_dry_run : ∀ d k, runsK .search d k = false := by
   intro d k; cases d <;> cases k <;> decide
 
 open Gen.DryRunGates in
-/-- handle_replace: every writing statement comes after the dry-run return; it never takes the lock or writes a plan -/
-theorem replace_dry_run_gates : (∀ k, runsK .replace true k = false) ∧ (∀ d, runsK .replace d .lock = false) ∧
-    (∀ d, runsK .replace d .planWrite = false) := by
-  refine ⟨?_, ?_, ?_⟩
+/-- handle_replace: a dry run skips every writing statement — the lock (taken since 451dd24) included; it never writes
+    a plan file -/
+theorem replace_dry_run_gates : (∀ k, runsK .replace true k = false) ∧ (∀ d, runsK .replace d .planWrite = false) ∧
+    runsK .replace false .lock = true := by
+  refine ⟨?_, ?_, by decide⟩
   · intro k; cases k <;> decide
   · intro d; cases d <;> decide
-  · intro d; cases d <;> decide
+
+/-- the lock file is published complete: temp file, link, unlink (35d666f) -/
+theorem lock_publish_shape : Gen.DryRunGates.lockPublish = .tmpLink := by decide
 
 open Gen.DryRunGates in
 /-- rename_operation: a dry run skips every writing statement — the lock included (since 055e350) -/
@@ -163,14 +166,14 @@ theorem dry_program (c : Cfg) (hd : isDry c) (hai : c.autoInit = false) :
     | plan => rcases hd with h | h <;> simp at h; subst h; exact plan_dry_run_gates _
     | search => exact search_is_dry_run _ _
     | rename => rcases hd with h | h <;> simp at h; subst h; exact rename_dry_run_gates _
-    | replace => exact replace_dry_run_gates.2.1 _
+    | replace => rcases hd with h | h <;> simp at h; subst h; exact replace_dry_run_gates.1 _
   have hw : runsKG Gen.DryRunGates.gates cmd dry .planWrite = false := by
     cases cmd with
     | plan => rcases hd with h | h <;> simp at h; subst h; exact plan_dry_run_gates _
     | search => exact search_is_dry_run _ _
     | rename => rcases hd with h | h <;> simp at h; subst h; exact rename_dry_run_gates _
-    | replace => exact replace_dry_run_gates.2.2 _
-  simp [program, programG, hl, hw, probeBlock]
+    | replace => exact replace_dry_run_gates.2.1 _
+  simp [program, programG, programGP, hl, hw, probeBlock]
 
 /-- **Read-only.**  Every dry run — plan --dry-run, search, rename --dry-run, replace --dry-run — in which auto-init
     adds nothing: the tree after the run is the tree before it, and every path the run writes is the transient probe. -/
@@ -234,18 +237,18 @@ def emptyTree : T := fun _ => none
 theorem rename_dryrun_writes_nothing :
     program renameDry = probeBlock ∧ exec emptyTree (program renameDry) .renamifyDir = none := by decide
 
-/-- **Before 055e350.**  With the gate table as it was (lock taken before the dry-run gate) `rename --dry-run`
+/-- **Before 055e350.**  With the gate table as it was (lock taken before the dry-run gate, lock file created with O_EXCL) `rename --dry-run`
     created `.renamify/` (which stayed) and the lock file (removed again); neither is a permitted write of a dry run. -/
 theorem before_fix_rename_dryrun_creates_renamify :
-    FsOp.mkdir .renamifyDir ∈ programG oldRenameGates renameDry ∧ FsOp.openw .lock ∈ programG oldRenameGates renameDry ∧
+    FsOp.mkdir .renamifyDir ∈ programGP oldRenameGates .createNew renameDry ∧ FsOp.openw .lock ∈ programGP oldRenameGates .createNew renameDry ∧
     P.renamifyDir ∉ permitted renameDry ∧ P.lock ∉ permitted renameDry ∧
-    exec emptyTree (programG oldRenameGates renameDry) .renamifyDir = some .dir ∧
-    exec emptyTree (programG oldRenameGates renameDry) .lock = none := by
+    exec emptyTree (programGP oldRenameGates .createNew renameDry) .renamifyDir = some .dir ∧
+    exec emptyTree (programGP oldRenameGates .createNew renameDry) .lock = none := by
   refine ⟨by decide, by decide, by decide, by decide, by decide, by decide⟩
 
 /-- every program writes only these paths -/
 theorem program_writes (c : Cfg) : ∀ op ∈ program c, ∀ p ∈ written op,
-    p = .probeDir ∨ p = .probeFile ∨ p = .renamifyDir ∨ p = .lock ∨ p = .planFile ∨ p = .ignoreTmp ∨ p = .ignoreFile := by
+    p = .probeDir ∨ p = .probeFile ∨ p = .renamifyDir ∨ p = .lock ∨ p = .lockTmp ∨ p = .planFile ∨ p = .ignoreTmp ∨ p = .ignoreFile := by
   obtain ⟨cmd, dry, ex, ai, pr⟩ := c
   cases cmd <;> cases dry <;> cases ex <;> cases ai <;> cases pr <;> decide
 
